@@ -7,12 +7,12 @@ PROP = "C08"
 PROPS_FILE = "props/C08.v"
 COQ_FILES = ["gen/Gen.v", "proofs/SnaProofs.v", "model/Sender.v", "proofs/SenderProofs.v",
              "model/Shutdown.v", "proofs/ShutdownProofs.v", "proofs/ShutdownInvProofs.v", "proofs/ShutdownGatherProofs.v",
-             "proofs/ShutdownCrossedProofs.v", "proofs/ShutdownDataProofs.v", "props/C08.v"]
+             "proofs/ShutdownCrossedProofs.v", "proofs/ShutdownFailingProofs.v", "proofs/ShutdownDataProofs.v", "props/C08.v"]
 TRUSTED_BASE = [
     "Coq 8.16.1 kernel; vm_compute inside proofs only for the two finite instances (certificates: 'set closed under the "
     "step relation', 'rank decreases along some step'), Examples and the refutation witness; no native_compute",
     "hand-written control abstraction coq/model/Shutdown.v of association.go (Shutdown, handleShutdown, finishShutdownHandling, "
-    "handleShutdownAck, handleShutdownComplete, retransmitShutdownAck, handleInit/SHUTDOWN-ACK-SENT, handleData/SHUTDOWN-SENT, "
+    "handleShutdownAck, handleShutdownComplete (incl. shutdownCompleted of fix 568b58f), retransmitShutdownAck, handleInit/SHUTDOWN-ACK-SENT, handleData/SHUTDOWN-SENT, "
     "handleSack state filter + postprocessSack + advanceShutdownAfterDataDrain, onShutdownTimeout, onAckTimeout, "
     "gatherOutboundPriorityPackets/gatherOutbound/gatherOutboundShutdownPackets/gatherOutboundSackPackets, close, readLoop exit); "
     "translator for the state constants and isShutdownHandleState / entersShutdownReceived / isDataReceiveState",
@@ -25,9 +25,10 @@ TRUSTED_BASE = [
     "are outside the projection",
 ]
 ASSUMPTIONS = [
-    "hypothesis of 'Shutdown returned nil => everything written before the call was delivered': the caller's transport does not "
-    "fail and the user does not call Close/Abort while Shutdown is blocked. Without it the clause is refuted (theorem "
-    "c08_shutdown_nil_without_delivery_refuted, observed on the implementation: finding shutdown-nil-on-transport-failure)",
+    "'Shutdown returned nil => the shutdown sequence completed and both queues of the caller are empty' holds for all histories "
+    "including transport failure, ABORT from the peer and a concurrent Close (c08_shutdown_nil_means_completed; finite instance "
+    "c08_shutdown_nil_safe_under_failures). Before fix 568b58f the clause was refuted (finding D18, "
+    "sim-C08-shutdown-nil-on-transport-failure, recorded as fixed); the witness is replayed as a regression on every run",
     "'the peer has received' rests on C05 (a cumulative ack only covers delivered TSNs) and on Sender.sack_step modelling "
     "processAcknowledgement (C10's correspondence); proved here: SHUTDOWN / SHUTDOWN ACK leave only with both queues empty (all "
     "queue sizes), and an empty in-flight queue means every chunk was removed by a cumulative acknowledgement",
@@ -40,7 +41,8 @@ ASSUMPTIONS = [
 LEVEL_TEXT = ("Coq theorems: (all queue sizes, all histories of one endpoint) SHUTDOWN and SHUTDOWN ACK are emitted only with the "
               "pending and in-flight queues empty; writes outside ESTABLISHED are rejected and queue nothing; state x chunk "
               "successor matrix; priority order of gather; integer-level refinement of the acknowledgement oracle by the sender "
-              "model. Finite instances (one-sided: 3153 states, crossed: 9009 states, <= 2 messages per side, duplication / "
+              "model; Shutdown's result is nil only if shutdownCompleted is set, for all histories incl. transport failure / ABORT / "
+              "Close. Finite instances (one-sided: 3222 states, crossed: 9621 states, with failures: 41599 states; <= 2 messages per side, duplication / "
               "reordering / loss of everything in transit, writes and calls at any time) closed by a worklist computation certified "
               "by the closure lemma: Shutdown returns nil only on a closed and drained association, and every reachable state "
               "has a finite delivery/timer path to 'both closed'. The model is tied to the code by step-commuting records of "
@@ -88,7 +90,8 @@ def _run(ctx, name, env, timeout):
 
 def correspondence(ctx):
     # exhaustive schedules with <= k faults (drop / duplicate / swap) x one-sided, crossed x queued data 0 / 1 / several
-    # fragmented messages on either side; state x chunk matrix; transport loss racing the drain
+    # fragmented messages on either side; state x chunk matrix; transport failure / peer ABORT / concurrent Close racing the
+    # drain (regression of D18: Shutdown must report ErrShutdownIncomplete)
     _run(ctx, "sd-schedules", {"VERIF_SD_K": ctx.scale(2, 3)}, timeout=ctx.scale(1200, 14000))
 
 
